@@ -1204,13 +1204,10 @@ Proof.
   constructor; [exact Hab|]. eapply Forall_impl; [|exact Hall]. intros z Hz. eapply Qle_trans; eassumption.
 Qed.
 
-Definition labels_selector (honour : bool) (n : Z) (p : pspec) : pspec :=
-  if honour then match p with PScalar q => if (2 <? n) && negb (Qeq_bool q (1 # 2)) then PList [] else p | _ => p end else p.
-
 (* C20_labels_class_sizes_partial: what generate_labels returns, for every answer of np.percentile within its contract *)
 Lemma gen_labels_o_spec honour d n p rperc rcuts y : gen_labels_o honour d n p rperc rcuts = Ok y -> NoDup d -> separated d ->
   exists req rp rc, requested_percents honour n p = Some req /\
-    rp = used_part n (labels_selector honour n p) rperc /\ rc = used_part n (labels_selector honour n p) rcuts /\
+    rp = used_part (length req) rperc /\ rc = used_part (length req) rcuts /\
     y = map (label rc) d /\
     Forall2 (fun a b => qclose a b = true) rp req /\
     Forall2 (fun pc c => count_near (lenZ d) pc (lenZ (filter (fun x => Qle_bool (inject_Z x) c) d))) rp rc /\
@@ -1218,8 +1215,7 @@ Lemma gen_labels_o_spec honour d n p rperc rcuts y : gen_labels_o honour d n p r
 Proof.
   unfold gen_labels_o. destruct d as [|d0 dr] eqn:Ed; [discriminate|]. rewrite <- Ed.
   destruct (requested_percents honour n p) as [req|]; [|discriminate].
-  fold (labels_selector honour n p).
-  set (rp := used_part n (labels_selector honour n p) rperc). set (rc := used_part n (labels_selector honour n p) rcuts).
+  set (rp := used_part (length req) rperc). set (rc := used_part (length req) rcuts).
   destruct (forallb2 qclose rp req && forallb2 (cut_ok (sort d)) rp rc && (negb (qsortedb req) || qsortedb rc)) eqn:E; [|discriminate].
   intros H Hnd Hsep. injection H as <-. rewrite !andb_true_iff in E. destruct E as [[E1 E2] E3].
   exists req, rp, rc. split; [reflexivity|]. split; [reflexivity|]. split; [reflexivity|]. split; [reflexivity|].
@@ -1551,3 +1547,13 @@ Lemma noise_slices_prefix_refuted :
   noise_cat false [[0; 4; 2; 1]] [0; 0; 1; 0] (1 # 4) 1 [0; 1; 3; 2] [AIdx 4 [1]; AInt 1 0] = Raises /\
   noise_cat true [[0; 4; 2; 1]] [0; 0; 1; 0] (1 # 4) 1 [0; 1; 3; 2] [AIdx 4 [1]; AVal 2] = Ok [[0; 2; 2; 1]].
 Proof. vm_compute. split; reflexivity. Qed.
+
+(* the labels validator: monotone in the decision value (the clause that needs no cut points) *)
+Lemma labels_valid_mono d req y : labels_valid d req y = true ->
+  length y = length d /\
+  forall a b, In a (combine d y) -> In b (combine d y) -> fst a <= fst b -> snd a <= snd b.
+Proof.
+  unfold labels_valid. rewrite !andb_true_iff. intros [[[HL HM] _] _]. split; [apply Nat.eqb_eq; exact HL|].
+  intros a b Ha Hb Hab. rewrite forallb_forall in HM. specialize (HM a Ha). rewrite forallb_forall in HM. specialize (HM b Hb).
+  apply orb_true_iff in HM. destruct HM as [HM|HM]; [apply negb_true_iff in HM; lia|lia].
+Qed.
